@@ -15,6 +15,7 @@ package hkdf
 //@ pred rinv(f) = f.expander != nil && f.size == spec.hsize(f.expander) && len(f.buf) <= f.size && implies(f.counter == 1, len(f.buf) == 0) && implies(f.counter != 1, len(f.prev) == f.size && sameobj(f.buf, f.prev) && off(f.buf) + len(f.buf) == off(f.prev) + f.size)
 
 //@ func (*hkdfReader).Read
+//@ reindex
 //@ props C18
 //@ requires rinv(f)
 //@ requires ref(p) != ref(f.prev) && ref(p) != ref(f.info)
@@ -26,6 +27,7 @@ package hkdf
 //@ modifies f.prev
 //@ modifies f.buf
 //@ modifies p[0:len(p)]
+//@ modifies f.prev[0:f.size]
 // a Read that would exceed the limit fails without consuming output
 //@ ensures iff(result1 != nil, old(rem(f)) < len(p))
 //@ ensures implies(result1 != nil, result0 == 0 && f.counter == old(f.counter) && f.buf == old(f.buf) && f.prev == old(f.prev))
@@ -44,6 +46,8 @@ package hkdf
 //@ loop 1 invariant implies(f.counter == 1, len(f.buf) == 0)
 //@ loop 1 invariant implies(f.counter != 1, len(f.prev) == f.size && sameobj(f.buf, f.prev) && off(f.buf) + len(f.buf) == off(f.prev) + f.size)
 //@ loop 1 invariant ref(p) != ref(f.prev)
+//@ loop 1 invariant sameoutside(entry(p)) && sameoutside(before(f.prev)[0:f.size]) && onlyobjs(entry(p), before(f.prev))
+//@ loop 1 invariant (sameobj(f.prev, before(f.prev)) && off(f.prev) == off(before(f.prev))) || newobj(f.prev)
 //@ loop 1 invariant forall(i, 0, min(len(entry(p)), before(len(f.buf))), entry(p)[i] == before(f.buf[i]))
 //@ loop 1 invariant implies(f.counter != before(f.counter), forall(i, 0, n, entry(p)[len(entry(p)) - len(p) - n + i] == f.prev[i]))
 //@ loop 1 invariant implies(f.counter == before(f.counter), n == min(len(entry(p)), before(len(f.buf))) && len(entry(p)) - len(p) == n && f.buf == before(f.buf))
